@@ -711,17 +711,21 @@ class Dict(_instance_base.Instance, mixin.HasSlots, mixin.PythonDict):
   ) -> tuple[cfg.CFGNode, cfg.Variable]:
     if len(args) == 1 and len(args[0].data) == 1:
       with self._set_params_to_any_on_failure(node):
-        for f in self._super["update"].data:
-          f.underlying.match_args(node, function.Args((f.callself,) + args))
+        # Also applies the mutation, which joins the new key and value types
+        # with the ones of the items that are already there.
+        node, ret = self.call_pytd(node, "update", *args)
       self.update(node, args[0].data[0])
-      ret = self.ctx.convert.none.to_variable(node)
     elif args:
       self.is_concrete = False
       with self._set_params_to_any_on_failure(node):
         node, ret = self.call_pytd(node, "update", *args)
     else:
       ret = self.ctx.convert.none.to_variable(node)
-    self.update(node, kwargs)
+    for name, value in kwargs.items():
+      # Like `self[name] = value`.
+      node, _ = self.setitem_slot(
+          node, self.ctx.convert.constant_to_var(name, node=node), value
+      )
     return node, ret
 
   def update(
